@@ -37,7 +37,7 @@
 (* validly signed in the replay) and join_authorised_via_users_server      *)
 (* (names a user ID; its server cannot self-sign).                         *)
 (***************************************************************************)
-EXTENDS MatrixBase
+EXTENDS Redaction
 
 CONSTANTS Versions,
           MaxFaults,     \* how many required servers carry a fault at once (1 or 2)
@@ -48,7 +48,36 @@ MemberKinds == {"join", "invite", "leave", "ban", "knock"}
 Kinds == {"nonmember"} \cup MemberKinds
 
 GoodStates == {"ok", "vu_eq", "exp_later", "two_onebad"}
-Faults == {"absent", "corrupt", "stale", "wrongkey", "unknownkey", "expired", "after_vu"}
+\* stale_kept: a genuine signature of that key over the event with one content key of the redaction keep-list of
+\* its type changed (the signature does not cover what the room version says a signature covers)
+Faults == {"absent", "corrupt", "stale", "stale_kept", "wrongkey", "unknownkey", "expired", "after_vu"}
+
+\* --- what a signature covers: the redacted event (Redaction.tla), per room version and event type ----------------
+ETypes == {"m.room.message", "m.room.aliases", "m.room.create", "m.room.join_rules", "m.room.power_levels",
+           "m.room.history_visibility", "m.room.redaction"}
+TypeOf(e) == IF e.kind = "nonmember" THEN e.etype ELSE "m.room.member"
+\* the content keys the replay gives an event
+ContentKeysOf(v, e) ==
+    IF e.kind = "nonmember" THEN
+        CASE e.etype = "m.room.message" -> {"body", "msgtype"}
+          [] e.etype = "m.room.aliases" -> {"aliases", "foo"}
+          [] e.etype = "m.room.create" -> {"creator", "room_version", "m.federate"}
+          [] e.etype = "m.room.join_rules" -> {"join_rule", "allow", "foo"}
+          [] e.etype = "m.room.power_levels" -> {"ban", "users", "invite", "notifications"}
+          [] e.etype = "m.room.history_visibility" -> {"history_visibility", "foo"}
+          [] e.etype = "m.room.redaction" -> {"redacts", "reason"}
+    ELSE {"membership", "displayname"}
+         \cup (IF e.via THEN {"join_authorised_via_users_server"} ELSE {})
+         \cup (IF e.kind = "invite" THEN {NestedKey} ELSE {})
+         \cup (IF PseudoIDs(v) /\ e.kind = "join" THEN {"mxid_mapping"} ELSE {})
+AbsEvent(v, e) ==
+    LET ks == ContentKeysOf(v, e) IN
+    [type |-> TypeOf(e), top |-> EmptyFn, con |-> [k \in ks |-> "x"],
+     tpi |-> IF NestedKey \in ks THEN [obj |-> TRUE, keys |-> ("signed" :> "x" @@ "display_name" :> "x")] ELSE NoTpi]
+KeptCon(v, e) == DOMAIN RedactV(v, AbsEvent(v, e)).con
+KeptTpi(v, e) == DOMAIN RedactV(v, AbsEvent(v, e)).tpi.keys
+\* the kept content key a stale_kept signature disagrees on ("" if the type keeps none)
+KeptKey(v, e) == IF KeptCon(v, e) \ {NestedKey} = {} THEN "" ELSE CHOOSE k \in KeptCon(v, e) \ {NestedKey} : TRUE
 TimeFaults == {"expired", "after_vu"}
 TimeGood == {"vu_eq", "exp_later"}
 OtherModes == {"absent", "ok", "corrupt"}    \* what every server that is not required carries
@@ -62,8 +91,11 @@ TimeModes == {"normal", "future6d", "future8d"}
 \*   - a key held with a valid_until_ts in the past is asked for again: the fresher copy legitimately extends
 \*     its validity (state after_vu then counts as ok);
 \*   - anything else the fetcher volunteers changes nothing.
-VARIABLES ver, ev, sig, tm, src, vol, verdict, phase
-vars == <<ver, ev, sig, tm, src, vol, verdict, phase>>
+\* pres: how the event reaches the verifier: as it was signed ("trusted"), or over federation with an extra
+\* top-level key added in transit ("received": the content hash fails, NewEventFromUntrustedJSON hands out the
+\* redacted form) - the verdict is the same: signatures cover the redacted form
+VARIABLES ver, ev, sig, tm, src, vol, pres, verdict, phase
+vars == <<ver, ev, sig, tm, src, vol, pres, verdict, phase>>
 
 \* --- the property sentence -----------------------------------------------------------------------
 Required(v, e) ==
@@ -84,35 +116,49 @@ Good(st, t, v) ==
 Eff(st, where, volunteered) == IF st = "after_vu" /\ volunteered /\ where = "db" THEN "ok" ELSE st
 EffSig(sg, sr, vl) == [s \in Servers |-> Eff(sg[s], sr[s], vl)]
 
-Verify(v, e, sg, t) == \A s \in Required(v, e) : Good(sg[s], t, v) = TRUE
+\* The redacted form a receiver gets after a hash failure says what the room version's redaction keeps.  Room
+\* version 8 has restricted joins but does not keep join_authorised_via_users_server (room version 9 repairs
+\* that): the redacted form of such a join no longer names an authorising user, and nobody can demand that
+\* user's server's signature from it.  A property of the protocol.
+ViaVisible(v, e, p) == p = "trusted" \/ "join_authorised_via_users_server" \in KeptCon(v, e)
+RequiredP(v, e, p) == Required(v, IF e.via /\ ~ViaVisible(v, e, p) THEN [e EXCEPT !.via = FALSE] ELSE e)
+
+Verify(v, e, sg, t, p) == \A s \in RequiredP(v, e, p) : Good(sg[s], t, v) = TRUE
 
 \* --- scenarios --------------------------------------------------------------------------------------
 \* server identity coincidences: the target / authoriser may live on the sender's server, the authoriser on the
 \* target's; the event ID (room versions 1-2) may name another server than the sender's
 Events(v) ==
     LET esrvs == IF EventIDFormat(v) = 1 THEN {"s1", "s2", "s4"} ELSE {"s1"} IN
-    {[kind |-> "nonmember", via |-> FALSE, tsrv |-> "s1", asrv |-> "s1", esrv |-> x] : x \in esrvs}
-    \cup {[kind |-> k, via |-> FALSE, tsrv |-> t, asrv |-> "s1", esrv |-> x] :
+    {[kind |-> "nonmember", etype |-> t, via |-> FALSE, tsrv |-> "s1", asrv |-> "s1", esrv |-> x] : x \in esrvs, t \in ETypes}
+    \cup {[kind |-> k, etype |-> "m.room.member", via |-> FALSE, tsrv |-> t, asrv |-> "s1", esrv |-> x] :
              k \in MemberKinds, t \in {"s1", "s2"}, x \in esrvs}
     \cup (IF PseudoIDs(v) THEN {} ELSE
-          {[kind |-> k, via |-> TRUE, tsrv |-> t, asrv |-> a, esrv |-> x] :
+          {[kind |-> k, etype |-> "m.room.member", via |-> TRUE, tsrv |-> t, asrv |-> a, esrv |-> x] :
              k \in {"join", "invite", "leave"}, t \in {"s1", "s2"}, a \in {"s1", "s2", "s3"}, x \in esrvs})
 
-StatesFor(v) == IF PseudoIDs(v) THEN (GoodStates \cup Faults) \ (TimeFaults \cup TimeGood) ELSE GoodStates \cup Faults
+StatesFor(v, e) ==
+    ((IF PseudoIDs(v) THEN (GoodStates \cup Faults) \ (TimeFaults \cup TimeGood) ELSE GoodStates \cup Faults)
+     \ (IF KeptKey(v, e) = "" THEN {"stale_kept"} ELSE {}))
+    \* the event types that only differ in what their signature covers: the crypto states
+    \cap (IF e.kind = "nonmember" /\ e.etype # "m.room.message"
+          THEN {"ok", "absent", "corrupt", "stale", "stale_kept"} ELSE GoodStates \cup Faults)
+FullFamily(e) == e.kind # "nonmember" \/ e.etype = "m.room.message"
 
 Assignments(v, e) ==
     LET R == Required(v, e)
         mk(f, o) == [s \in Servers |-> IF s \in R THEN f[s] ELSE o]
         allok == [s \in R |-> "ok"]
-        one == {[s \in R |-> IF s = r THEN st ELSE "ok"] : r \in R, st \in StatesFor(v) \ {"ok"}}
+        one == {[s \in R |-> IF s = r THEN st ELSE "ok"] : r \in R, st \in StatesFor(v, e) \ {"ok"}}
         two == IF MaxFaults < 2 THEN {} ELSE
                UNION {{[s \in R |-> IF s = r1 THEN st1 ELSE IF s = r2 THEN st2 ELSE "ok"] :
-                          r2 \in R \ {r1}, st1 \in StatesFor(v) \ {"ok"},
-                          st2 \in StatesFor(v) \ {"ok"}} : r1 \in R}
-    IN {mk(allok, o) : o \in OtherModes}
-       \cup {mk([s \in R |-> "absent"], o) : o \in {"absent", "ok"}}
-       \cup {mk(f, o) : f \in one, o \in (IF MaxFaults < 2 THEN {"absent", "ok"} ELSE OtherModes)}
-       \cup {mk(f, o) : f \in two, o \in {"absent", "ok"}}
+                          r2 \in R \ {r1}, st1 \in StatesFor(v, e) \ {"ok"},
+                          st2 \in StatesFor(v, e) \ {"ok"}} : r1 \in R}
+    IN IF ~FullFamily(e) THEN {mk(allok, "absent")} \cup {mk(f, "absent") : f \in one}
+       ELSE {mk(allok, o) : o \in OtherModes}
+            \cup {mk([s \in R |-> "absent"], o) : o \in {"absent", "ok"}}
+            \cup {mk(f, o) : f \in one, o \in (IF MaxFaults < 2 THEN {"absent", "ok"} ELSE OtherModes)}
+            \cup {mk(f, o) : f \in two, o \in {"absent", "ok"}}
 
 AllDB == [s \in Servers |-> "db"]
 \* key sources: everything in the database and a silent fetcher; or one required server's keys (with two
@@ -121,7 +167,7 @@ AllDB == [s \in Servers |-> "db"]
 Sources(v, e, a) ==
     LET R == Required(v, e)
         sets == IF MaxFaults < 2 THEN {{}} \cup {{r} : r \in R} ELSE SUBSET R
-    IN IF v \in SourceVersions /\ ~PseudoIDs(v) /\ (\E s \in R : a[s] # "absent") /\ (\A s \in Servers \ R : a[s] = "absent")
+    IN IF v \in SourceVersions /\ ~PseudoIDs(v) /\ FullFamily(e) /\ (\E s \in R : a[s] # "absent") /\ (\A s \in Servers \ R : a[s] = "absent")
        THEN {<<[s \in Servers |-> IF s \in F THEN "fetcher" ELSE "db"], vl>> : F \in sets, vl \in BOOLEAN}
        ELSE {<<AllDB, FALSE>>}
 
@@ -130,26 +176,42 @@ Init ==
           /\ ver = v
           /\ ev = e
           /\ \/ (\E a \in Assignments(v, e) : \E k \in Sources(v, e, a) :
-                    sig = a /\ tm = "normal" /\ src = k[1] /\ vol = k[2])
-             \/ (~PseudoIDs(v) /\ sig = [s \in Servers |-> IF s \in Required(v, e) THEN "ok" ELSE "absent"]
-                 /\ tm \in {"future6d", "future8d"} /\ src = AllDB /\ vol = FALSE)
+                    /\ sig = a /\ tm = "normal" /\ src = k[1] /\ vol = k[2]
+                    \* the federation presentation: with the plain key sources and silent other servers
+                    \* (not the joins of pseudo-ID rooms: redaction drops their mxid_mapping, which is left out here)
+                    /\ pres \in (IF k = <<AllDB, FALSE>> /\ (\A s \in Servers \ Required(v, e) : a[s] = "absent")
+                                    /\ ~(PseudoIDs(v) /\ e.kind = "join")
+                                 THEN {"trusted", "received"} ELSE {"trusted"}))
+             \/ (~PseudoIDs(v) /\ FullFamily(e) /\ sig = [s \in Servers |-> IF s \in Required(v, e) THEN "ok" ELSE "absent"]
+                 /\ tm \in {"future6d", "future8d"} /\ src = AllDB /\ vol = FALSE /\ pres = "trusted")
     /\ verdict = FALSE
     /\ phase = "init"
 
 \* VerifyEventSignatures
 Check ==
     /\ phase = "init"
-    /\ verdict' = Verify(ver, ev, EffSig(sig, src, vol), tm)
+    /\ verdict' = Verify(ver, ev, EffSig(sig, src, vol), tm, pres)
     /\ phase' = "done"
-    /\ UNCHANGED <<ver, ev, sig, tm, src, vol>>
+    /\ UNCHANGED <<ver, ev, sig, tm, src, vol, pres>>
 
 Next == Check
 Spec == Init /\ [][Next]_vars
 
 Done == phase = "done"
-R == Required(ver, ev)
+R == RequiredP(ver, ev, pres)
 
 \* --- the property, restated over the outcome (independent of Verify) -------------------------------
+\* what a signature covers, per room version: sanity of the keep sets handed to the replay
+PCovers ==
+    /\ "membership" \in KeptCon(ver, ev) <=> ev.kind # "nonmember"
+    /\ (ev.kind = "nonmember" /\ ev.etype = "m.room.aliases" => (("aliases" \in KeptCon(ver, ev)) <=> BaseOf(ver) <= 5))
+    /\ (ev.kind = "nonmember" /\ ev.etype = "m.room.create" => (KeptCon(ver, ev) = IF BaseOf(ver) >= 11 THEN ContentKeysOf(ver, ev) ELSE {"creator"}))
+    /\ (ev.kind = "nonmember" /\ ev.etype = "m.room.join_rules" => (("allow" \in KeptCon(ver, ev)) <=> BaseOf(ver) >= 8))
+    /\ (ev.kind = "nonmember" /\ ev.etype = "m.room.power_levels" => (("invite" \in KeptCon(ver, ev)) <=> BaseOf(ver) >= 11))
+    /\ (ev.kind = "nonmember" /\ ev.etype = "m.room.redaction" => (("redacts" \in KeptCon(ver, ev)) <=> BaseOf(ver) >= 11))
+    /\ (ev.kind = "nonmember" /\ ev.etype = "m.room.message" => KeptCon(ver, ev) = {})
+    /\ (ev.via => (("join_authorised_via_users_server" \in KeptCon(ver, ev)) <=> BaseOf(ver) >= 9))
+    /\ (ev.kind = "invite" => ((NestedKey \in KeptCon(ver, ev)) <=> BaseOf(ver) >= 11) /\ (BaseOf(ver) >= 11 => KeptTpi(ver, ev) = {"signed"}))
 TypeOK == /\ ev.kind \in Kinds /\ ev.tsrv \in Servers /\ ev.asrv \in Servers /\ ev.esrv \in Servers
           /\ \A s \in Servers : sig[s] \in GoodStates \cup Faults
           /\ tm \in TimeModes
@@ -157,18 +219,20 @@ TypeOK == /\ ev.kind \in Kinds /\ ev.tsrv \in Servers /\ ev.asrv \in Servers /\ 
 PExact == Done => (verdict <=> \A s \in R : Good(Eff(sig[s], src[s], vol), tm, ver) = TRUE)
 \* an expired key is final, and where the keys come from matters only to a key held past its valid_until_ts
 PSources == Done => /\ (\A s \in R : sig[s] = "expired" => ~verdict)
-                    /\ ((\A s \in R : sig[s] # "after_vu") => verdict = Verify(ver, ev, sig, tm))
-                    /\ (~vol => verdict = Verify(ver, ev, sig, tm))
+                    /\ ((\A s \in R : sig[s] # "after_vu") => verdict = Verify(ver, ev, sig, tm, pres))
+                    /\ (~vol => verdict = Verify(ver, ev, sig, tm, pres))
 \* a missing / corrupted / wrong-key / out-of-validity signature from any one required server makes it fail
-POneBad == Done => (\A s \in R : sig[s] \in {"absent", "corrupt", "stale", "wrongkey", "unknownkey", "expired"} => ~verdict)
+POneBad == Done => (\A s \in R : sig[s] \in {"absent", "corrupt", "stale", "stale_kept", "wrongkey", "unknownkey", "expired"} => ~verdict)
 \* signatures of other servers never matter
-POthers == Done => verdict = Verify(ver, ev, [s \in Servers |-> IF s \in R THEN Eff(sig[s], src[s], vol) ELSE "absent"], tm)
+POthers == Done => verdict = Verify(ver, ev, [s \in Servers |-> IF s \in R THEN Eff(sig[s], src[s], vol) ELSE "absent"], tm, pres)
 \* sanity of Required
 PRequired ==
     /\ "s1" \in R
     /\ (ev.kind = "invite" => ev.tsrv \in R)
     /\ (ev.kind \notin {"invite", "join"} /\ EventIDFormat(ver) # 1 => R = {"s1"})
-    /\ (ev.kind = "join" /\ ev.via /\ BaseOf(ver) >= 8 /\ ver # "org.matrix.msc3667" => ev.asrv \in R)
+    /\ (ev.kind = "join" /\ ev.via /\ BaseOf(ver) >= 8 /\ ver # "org.matrix.msc3667" /\ (pres = "trusted" \/ BaseOf(ver) >= 9)
+            => ev.asrv \in R)
+    /\ (pres = "received" /\ ver = "8" /\ ev.kind = "join" => R = {"s1"})
     /\ (BaseOf(ver) < 8 /\ ev.kind = "join" /\ EventIDFormat(ver) # 1 => R = {"s1"})
     /\ Cardinality(R) <= 3
 \* strictness only ever matters through the validity period
